@@ -314,7 +314,7 @@ func (w *World) observeDID(obs *TxObs) error {
 				if !v.IDMatches {
 					w.Label("did mismatching id refused")
 				}
-				if w.On("C03") && obs.AntePassed && len(obs.Msgs) == 1 && obs.Step.Exec == 0 && kind == "create" &&
+				if w.On("C03") && obs.AntePassed && len(obs.Msgs) == 1 && !obs.Step.Wrapped() && kind == "create" &&
 					v.Absent && v.ProofOK && v.IDMatches && doc != nil && uniqueAuthIDs(doc) && obs.Res.Codespace != "sdk" {
 					return vio("C03", "canonical create of fresh %s with a valid self-proof was refused: %s/%d %s", did, obs.Res.Codespace, obs.Res.Code, obs.Res.Log)
 				}
